@@ -300,6 +300,8 @@ def r2(ctx):
     b = ctx.need_body(rule, 'cache::HashCache::get')
     if b is None:
         return
+    from ..desugar import desugared
+    b = desugared(lib, b)          # `Ok(unchanged.then_some(hit))` is `if unchanged { Some(hit) } else { None }`
     P = b.path
     somes = [(bi, s) for bi, s in aggregates(b, 'option::Option', 'Some') if True]
     # the hit: Some((data_len, hash))
